@@ -601,6 +601,50 @@ def check_invalidation(run, rule, facts):
     run.floor(rule, 10, "references / iterators into standard containers")
 
 
+# ------------------------------------------------------------------ R03.9 a cursor that indexes the input moves forward
+
+def check_progress(run, rule, fns, facts):
+    """`pos += step` inside a loop that subscripts with pos: the step must be at least 1 for every input byte, otherwise a
+    crafted length byte keeps the loop on the same position for ever (time not proportional to the input)."""
+    n = 0
+    for f in fns:
+        env = Env(f["body"])
+        env.def_guard = {}
+        for st, g, loops in ir.guarded_statements_lc(f["body"], env):
+            if st.get("k") in ("IfCond", "LoopHead", "SwitchHead") or not loops:
+                continue
+            for x in ir.walk(st):
+                if not (x.get("k") == "Bin" and x.get("op") == "+=" and const_value(x.get("rhs")) is None):
+                    continue
+                vp = path(x.get("lhs"))
+                if not vp or len(vp) != 1 or not (vp[0].startswith("l:") or vp[0].startswith("p:")):
+                    continue
+                lp = [l_ for l_ in loops if l_.get("k") in ("While", "Do", "For")]
+                if not lp:
+                    continue
+                used_as_index = False
+                for y in ir.walk(lp[-1]):
+                    idx = None
+                    if y.get("k") == "Index":
+                        idx = y.get("idx")
+                    elif y.get("k") == "OpCall" and y.get("op") == "[]" and len(y.get("args", [])) == 2:
+                        idx = y["args"][1]
+                    elif y.get("k") == "MCall" and callee_name(y) == "at" and y.get("args"):
+                        idx = y["args"][0]
+                    if idx is not None and path(idx) == vp:
+                        used_as_index = True
+                if not used_as_index:
+                    continue
+                r = ranges.rng(x["rhs"], ranges.Ctx(g, env, facts.enums, loops))
+                n += 1
+                ok = r is not None and r[0] >= 1
+                run.ob(rule, "%s:%s+=%s" % (fname(f), vp[0].split("#")[0][2:], show(x["rhs"])[:40]), ok, f, x.get("l", 0),
+                       "the cursor advances by %s >= 1 in every round" % (list(r) if r else "?") if ok else
+                       "the cursor `%s` advances by %s, whose range %s includes values <= 0: a crafted byte makes the loop stay where it "
+                       "is (or go back) and never end" % (vp[0].split("#")[0][2:], show(x["rhs"])[:60], list(r) if r else "unknown"))
+    run.floor(rule, 1, "input cursors advanced by a computed step")
+
+
 def check(run):
     facts = run.facts
     reach, mains, cg = read_side(facts)
@@ -629,4 +673,5 @@ def check(run):
     run.floor("R03.5", 8, "signed arithmetic / shifts / divisions on the read side")
     check_inet_ntop(run, "R03.6", fns)
     check_invalidation(run, "R03.8", facts)
+    check_progress(run, "R03.9", fns, facts)
     check_exceptions(run, "R03.7", reach, mains)
